@@ -107,8 +107,8 @@ def handle (args : List String) : String :=
   match args with
   | ["facts"] =>
     s!"typedEq shortcut={Gen.ListLocks.typedEqShortcut} locks={repr Gen.ListLocks.typedEqLocks} cmp={repr Gen.ListLocks.typedEqCompare}; " ++
-    s!"erasedEq shortcut={Gen.ListLocks.erasedEqShortcut} locks={repr Gen.ListLocks.erasedEqLocks} cmp={repr Gen.ListLocks.erasedEqCompare}; " ++
-    s!"concat={repr Gen.ListLocks.concatSteps}" |>.replace "\n" " "
+    s!"erasedEq shortcut={Gen.ListLocks.erasedEqShortcut} locksLt={repr Gen.ListLocks.erasedEqLocksLt} cmpLt={repr Gen.ListLocks.erasedEqCompareLt} locksGe={repr Gen.ListLocks.erasedEqLocksGe} cmpGe={repr Gen.ListLocks.erasedEqCompareGe}; " ++
+    s!"concat same={repr Gen.ListLocks.concatStepsSame} lt={repr Gen.ListLocks.concatStepsLt} ge={repr Gen.ListLocks.concatStepsGe}" |>.replace "\n" " "
   | ["cap", sz, req] =>
     match nat? sz, nat? req with
     | some sz, some req =>
